@@ -150,14 +150,14 @@ M2_NOTE = ("Trusted: engine M2 (/verif/mir/mirvm.py), a symbolic interpreter of 
            "the library summaries listed in the evidence; nightly MIR == stable semantics for these functions; z3. Unknown MIR constructs or calls make the "
            "check INCONCLUSIVE, never a pass. Counterexamples are replayed on the real functions in a native test before they are reported.")
 CLAIMS["C01"] = {
-    "engine": "K", "level": "model_checking",
-    "technique": "bounded model checking of the real VM step() arms with Kani/CBMC from symbolic frames (tag discipline, stack effect, no Rust panic); program-level stack discipline via engine S in C02",
+    "engine": "K+S+R", "level": "model_checking",
+    "technique": "bounded model checking of the real VM step() arms with Kani/CBMC from symbolic frames (tag discipline, stack effect, no Rust panic); symbolic execution of compiled stack-discipline templates (engine S vs R, z3), internal fault = violation",
     "text": "Every stack, constant, jump, call/return, struct/variant/closure, boolean and string-intrinsic arm of the real step() is run by CBMC from a "
             "frame with symbolic payloads and the operand tags the compiler guarantees: a tag mismatch (internal fault), an underflow, a wrong stack "
             "effect or a Rust panic is a failed check; the register decoding is checked for every 15-bit offset. Whole-program faults (operand stack "
             "desynchronisation across instructions) are decided by the symbolic execution of compiled templates in ./check C02, where an internal fault "
-            "is a violation.",
-    "note": K_NOTE,
+            "is a violation. The C01 check itself also runs the templates tagged C01 (thorough: the whole family).",
+    "note": K_NOTE + " " + S_NOTE,
 }
 CLAIMS["C06"] = {
     "engine": "K", "level": "model_checking",
@@ -187,11 +187,12 @@ CLAIMS["C08"] = {
 }
 CLAIMS["C09"] = {
     "engine": "K", "level": "model_checking",
-    "technique": "Kani/CBMC on single real ChannelWrite / ChannelRead steps over queues of 0..2 symbolic values, plus the ownership obligation on what the queue holds",
-    "text": "One-step harnesses on two real threads sharing a queue: a write appends at the back and never blocks, a read takes the front element and copies "
-            "it into the reader's heap, an empty read only rewinds the reader. By induction every written value is read once and in order. The "
-            "obligation that a queued heap value does not belong to the writer's heap FAILS on the real code (known finding: use after free when the "
-            "writer finishes first).",
+    "technique": "Kani/CBMC on single real ChannelWrite steps, the real read_value, the empty ChannelRead step and the string / scalar conversions, over queues of 0..3 symbolic values",
+    "text": "One-step harnesses: a real ChannelWrite appends at the back, never blocks and queues a value that owns its contents (so it survives the "
+            "writer: a finished task is dropped and its heap freed); the real read_value takes the front element and keeps the rest in order; a read "
+            "on an empty channel only rewinds the reader; a string is copied out of the writer's heap and into the reader's heap with equal contents. "
+            "By induction every written value is read once, in order. The non-empty path of the ChannelRead arm as a whole and compound values in "
+            "flight are outside (recursive drop glue of ChannelValue under CBMC, measured).",
     "note": K_NOTE + " std::collections::VecDeque and Mutex behave as documented.",
 }
 CLAIMS["C10"] = {
